@@ -418,6 +418,7 @@ func kindOf(site int32) uint8 {
 //
 //go:norace
 func Yield(site int32) {
+	heartbeat++
 	if !s.active {
 		if jitter {
 			// The library runs goroutines of its own (census): the simulator does
@@ -728,6 +729,24 @@ func Progress() uint64 { return s.progress }
 func LockLeaks() int32 { return lockLeaksEver }
 
 var lockLeaksEver int32
+
+// heartbeat counts every yield point library code passes, simulated or not;
+// the harness's process-wide watchdog reads it.
+var heartbeat uint64
+
+//go:norace
+func Heartbeat() uint64 { return heartbeat }
+
+// OpenBrackets: how many statement-level Lock()/Unlock() brackets the current
+// task has open (0 outside a simulation).
+//
+//go:norace
+func OpenBrackets() int32 {
+	if !s.active {
+		return 0
+	}
+	return s.noPreempt[s.cur]
+}
 
 //go:norace
 func Steps() uint64 { return s.step }
